@@ -59,6 +59,7 @@ class Run:
         self.scratch = tempfile.mkdtemp(prefix="verif-%s-" % prop)
         if not keep:
             atexit.register(shutil.rmtree, self.scratch, True)
+        shutil.rmtree(os.path.join(core.VERIF, "replays", prop), ignore_errors=True)
         self.results = []
         self.violations = []      # (case, violation dict)
         self.inconclusive = []
